@@ -370,3 +370,65 @@ func ZZ_C16_blocked_receiver() {
 		}
 	}
 }
+
+// ZZ_C16_fan_in: two producers into one buffered channel, one consumer, under
+// schedule exploration: every value sent is received exactly once (a send that
+// checks for room and then sends in two steps loses a value when the other
+// producer takes the slot in between).
+func ZZ_C16_fan_in() { zzFanIn(1, 3) }
+
+// (thorough: two values per producer, one more context switch)
+func ZZ_C16_fan_in_2() { zzFanIn(2, 4) }
+
+func zzFanIn(per, maxSwitches int) {
+	a, b, c := zz.Int64(), zz.Int64(), zz.Int64()
+	e := zzChanEnv(a, b, c)
+	capacity := []string{", 1", ", 2"}[zz.Choose(2)]
+	items := []string{"", "ch <- A; ", "ch <- A; ch <- C; "}[per]
+	items2 := []string{"", "ch <- B; ", "ch <- B; ch <- C; "}[per]
+	// (the consumer counts what it takes out, so no closing goroutine is needed)
+	src := "ch = make(chan int64" + capacity + ")\n" +
+		"go func() { " + items + "}()\n" +
+		"go func() { " + items2 + "}()\n" +
+		"out = []\nfor i = 0; i < " + []string{"0", "2", "4"}[per] + "; i++ { out += [<-ch] }\nout"
+	if !zz.Symbolic() {
+		// native replay of a schedule found by the engine: the runtime's scheduler
+		// cannot be steered, so the same property is stressed - 4 producers x 300
+		// values into the same kind of channel; a lost value leaves the consumer
+		// waiting for ever (the replay then times out, which confirms the finding)
+		stress := "ch = make(chan int64" + capacity + ")\n"
+		for i := 0; i < 4; i++ {
+			stress += "go func() { for i = 0; i < 300; i++ { ch <- i } }()\n"
+		}
+		stress += "n = 0\nfor i = 0; i < 1200; i++ { <-ch; n++ }\nn"
+		for round := 0; round < 20; round++ {
+			r, err := Execute(env.NewEnv(), nil, stress)
+			zz.Assert(err == nil && r == int64(1200), "C16.fan-in/every-value-received-once")
+		}
+		return
+	}
+	zz.Budget(2000000)
+	zz.UnwindIsViolation("terminates.C16.fan-in")
+	zz.DeadlockIsViolation("terminates.C16.fan-in")
+	zz.MaxDecisions(4000)
+	if zz.Symbolic() {
+		zz.SchedChannelsOnly(true)
+		zz.SchedExplore(true, maxSwitches)
+	}
+	r, err := Execute(e, nil, src)
+	zz.SchedExplore(false, 0)
+	zz.Drain()
+	zz.Assert(err == nil, "C16.fan-in/runs")
+	l, ok := zzIntList(r)
+	zz.Assert(ok && len(l) == 2*per, "C16.fan-in/every-value-received-once")
+	if ok && len(l) == 2*per {
+		// as a multiset: A and B each exactly once
+		zz.Assume(zz.And(a != b, zz.And(a != c, b != c)))
+		na, nb := 0, 0
+		for _, x := range l {
+			na += zz.Ite(x == a, 1, 0)
+			nb += zz.Ite(x == b, 1, 0)
+		}
+		zz.Assert(na == 1 && nb == 1, "C16.fan-in/every-value-received-once")
+	}
+}
